@@ -126,7 +126,7 @@ int main(int argc, char** argv)
                 xt.destroyParsedSource(src);
                 xt.destroyStylesheet(comp);
             }
-            else if (kind == "eval" || kind == "xform" || kind == "copy" || kind == "key" || kind == "number" || kind == "numbersm")
+            else if (kind == "eval" || kind == "xform" || kind == "copy" || kind == "key" || kind == "keyarg" || kind == "number" || kind == "numbersm")
             {
                 std::ostringstream out;
                 int rc;
